@@ -957,6 +957,8 @@ func (e *SpecEnv) call(n *SCall) Val {
 		switch s := e.eval(n.Args[0]).(type) {
 		case Scalar:
 			return Ptr{s.T, c.idx(0), t}
+		case Interior:
+			return Ptr{s.Ref, s.Idx, t}
 		case Ptr:
 			return Ptr{s.Ref, s.Idx, t}
 		}
